@@ -100,10 +100,15 @@ deriving DecidableEq, Repr
 
 def isBlank (c : Nat) : Bool := c = 32 || (9 ≤ c && c ≤ 13) || c = 0x85 || c = 0xA0
 
-/-- read a quoted run inside a field: everything up to and including the next `q` -/
-def scanQuoted (q : Nat) : List Nat → List Nat → Option (List Nat × List Nat)
-  | [], _ => none
-  | c :: r, acc => if c = q then some (c :: acc, r) else scanQuoted q r (c :: acc)
+/-- read a quoted run inside a field: everything up to and including the closing quote `q`
+    (`need = 1`), or — for a triple-quoted string — up to three `q` in a row (`need = 3`);
+    `run` counts the quote characters just seen -/
+def scanQuoted (q need : Nat) : Nat → List Nat → List Nat → Option (List Nat × List Nat)
+  | _, [], _ => none
+  | run, c :: r, acc =>
+    if c = q then
+      if run + 1 ≥ need then some (c :: acc, r) else scanQuoted q need (run + 1) r (c :: acc)
+    else scanQuoted q need 0 r (c :: acc)
 
 /-- The `while let Some(ch) = self.next_char()` loop of `parse_formatted_value` up to the point
     where it either meets the spec colon or the closing brace. -/
@@ -129,7 +134,8 @@ def scanField : Nat → FieldState → List Nat → Option (FieldState × FieldS
     else if ch = 61 ∧ st.delims.isEmpty then
       scanField fuel { st with selfDoc := true } rest
     else if ch = 58 ∧ st.delims.isEmpty then some (st, .spec, rest)
-    else if ch = 40 ∨ ch = 123 ∨ ch = 91 then
+    else if (ch = 40 ∨ ch = 123 ∨ ch = 91) ∧ !st.selfDoc then
+      -- after the self-documenting `=` only blanks, `!`, `:` or `}` may follow
       scanField fuel { st with expr := ch :: st.expr, delims := ch :: st.delims } rest
     else if ch = 41 then
       (match st.delims with
@@ -145,11 +151,23 @@ def scanField : Nat → FieldState → List Nat → Option (FieldState × FieldS
        | _ => none)
     else if ch = 125 then
       if st.expr.all isBlank then none else some (st, .close, rest)
-    else if ch = 34 ∨ ch = 39 then
-      (match scanQuoted ch rest (ch :: st.expr) with
-       | some (acc, r) => scanField fuel { st with expr := acc } r
-       | none => none)
-    else if ch = 32 ∧ st.selfDoc then
+    else if (ch = 34 ∨ ch = 39) ∧ !st.selfDoc then
+      -- a triple-quoted string ends at three quote characters in a row
+      (match rest with
+       | c1 :: c2 :: r2 =>
+         if c1 = ch ∧ c2 = ch then
+           (match scanQuoted ch 3 0 r2 (ch :: ch :: ch :: st.expr) with
+            | some (acc, r) => scanField fuel { st with expr := acc } r
+            | none => none)
+         else
+           (match scanQuoted ch 1 0 rest (ch :: st.expr) with
+            | some (acc, r) => scanField fuel { st with expr := acc } r
+            | none => none)
+       | _ =>
+         (match scanQuoted ch 1 0 rest (ch :: st.expr) with
+          | some (acc, r) => scanField fuel { st with expr := acc } r
+          | none => none))
+    else if (ch = 32 ∨ ch = 9 ∨ ch = 10 ∨ ch = 11 ∨ ch = 12) ∧ st.selfDoc then
       scanField fuel { st with trailing := ch :: st.trailing } rest
     else if ch = 92 then none
     else if st.selfDoc then none
@@ -210,11 +228,11 @@ def validParamNames (ps : Params) : Bool :=
   !hasDup ((ps.posonly ++ ps.args ++ ps.kwonly).map paramName ++ ps.vararg.toList ++ ps.kwarg.toList)
 
 /-- adjacent-string concatenation of `parse_strings` once every literal has been turned into
-    pieces: `.inl s` a plain string piece, `.inr e` a `FormattedValue` -/
+    pieces: `.inl s` a plain string piece (empty ones are dropped), `.inr e` a `FormattedValue` -/
 def dedupPieces (u : Bool) : List (List Nat ⊕ Expr) → Option (List Nat) → List Expr
   | [], none => []
   | [], some cur => [.const (.str cur u)]
-  | .inl s :: r, none => dedupPieces u r (some s)
+  | .inl s :: r, none => if s.isEmpty then dedupPieces u r none else dedupPieces u r (some s)
   | .inl s :: r, some cur => dedupPieces u r (some (cur ++ s))
   | .inr e :: r, none => e :: dedupPieces u r none
   | .inr e :: r, some cur => .const (.str cur u) :: e :: dedupPieces u r none
@@ -1018,6 +1036,14 @@ def fstrSpec : Nat → Bool → Nat → List Nat → List Nat → Option (List E
        | none => none)
     else if ch = 125 then
       some ((if piece.isEmpty then [] else [.const (.str piece.reverse false)]), ch :: rest)
+    else if ch = 92 ∧ !raw then
+      (match rest with
+       | 123 :: _ => fstrSpec f raw nested rest (92 :: piece)
+       | 125 :: _ => fstrSpec f raw nested rest (92 :: piece)
+       | _ =>
+         (match fstrEscape rest with
+          | some (cs, r) => fstrSpec f raw nested r (cs.reverse ++ piece)
+          | none => none))
     else fstrSpec f raw nested rest (ch :: piece)
 termination_by structural f => f
 
